@@ -277,9 +277,20 @@ def late_echoes(run: runner.Run, min_delay: float) -> list[tuple[Any, float, flo
             elif e[2] == 'srv' and e[3] in ('patch', 'update') and len(e) > 9 and is_operator_actor(run, e[4]):
                 written[(op_of(e[4]), e[7], str(e[9]))] = e[1]
             elif e[2] == 'watch-ev' and len(e) > 7:
-                t_w = written.get((conn_actor.get(e[3], ''), e[5], str(e[7])))
+                t_w = written.pop((conn_actor.get(e[3], ''), e[5], str(e[7])), None)
                 if t_w is not None:
                     cached.append((e[5], t_w, e[1]))
+        # echoes that never came at all (held back behind a delayed event until the stream was closed: a pause, an exit)
+        # -- counted for as long as the writing process lived on (it is that process which then acts blind)
+        last_seen: dict[str, float] = {}
+        writer: dict[tuple[str, Any, Any], str] = {}
+        for e in run.sim.trace:
+            if e[2] in ('proc+', 'proc-', 'h+', 'h-') and len(e) > 3:
+                last_seen[str(e[3])] = e[1]
+            elif e[2] == 'srv' and e[3] in ('patch', 'update') and len(e) > 9 and is_operator_actor(run, e[4]):
+                writer[(op_of(e[4]), e[7], str(e[9]))] = str(e[4])
+        for key_, t_w in written.items():
+            cached.append((key_[1], t_w, last_seen.get(writer.get(key_, ''), t_w)))
         run._late_echoes = cached  # type: ignore[attr-defined]
     return [x for x in cached if x[2] - x[1] >= min_delay]
 
